@@ -302,6 +302,63 @@ func VerifC05_WorkLaunchedBeforeStart() {
 	rt.Reach("prestart-end")
 }
 
+// ---- a service worker that answers the cancellation with an error, a wrapped
+// context.Canceled or a restart request is not invoked again once the module
+// stops, and the stop completes ----
+
+type c05Wrap struct{ err error }
+
+func (w c05Wrap) Error() string { return "wrapped" }
+func (w c05Wrap) Unwrap() error { return w.err }
+
+func VerifC05_ServiceWorkerOnStop() {
+	rt.SchedYieldOnly(true)
+	SetStdErrReporting(false)
+	c05Reset()
+	moduleStopTimeout = time.Hour
+	m := initNewModule("m", nil, nil, func() error { return nil })
+	m.status = StatusOnline
+	close(m.startComplete)
+	answer := rt.Choice("answer", 5)
+	invocations, afterCancel := 0, 0
+	m.StartServiceWorker("sw", 0, func(ctx context.Context) error {
+		invocations++
+		if ctx.Err() != nil {
+			afterCancel++
+			// invoked although the module context is already cancelled: at most
+			// once more is tolerated, never a loop
+			rt.Assert(afterCancel <= 1, "swstop/not-reinvoked-in-a-loop-after-cancellation")
+			if afterCancel > 1 {
+				rt.AllowDeadlock()
+				select {}
+			}
+		}
+		<-ctx.Done()
+		switch answer {
+		case 1:
+			return context.Canceled
+		case 2:
+			return c05Wrap{context.Canceled}
+		case 3:
+			return c05Wrap{ErrRestartNow}
+		case 4:
+			return errors.New("connection closed")
+		}
+		return nil
+	})
+	rt.Yield()
+	reports := make(chan *report, 1)
+	m.stop(reports)
+	rep := <-reports
+	rt.Assert(rep.err == nil, "swstop/stop-ok")
+	rt.Assert(atomic.LoadInt32(m.workerCnt) == 0, "swstop/no-worker-left-at-report")
+	rt.Assert(m.Status() == StatusOffline, "swstop/offline")
+	n := invocations
+	time.Sleep(time.Minute) // nothing runs after the report either
+	rt.Assert(invocations == n, "swstop/not-invoked-after-the-stop-report")
+	rt.Reach("swstop-end")
+}
+
 // ---- a stop that begins right after the start returned (G2, two
 // preemptions): the late bookkeeping of the start routine's goroutine must
 // not complete the stop ----
